@@ -577,3 +577,203 @@ func (g *gen) syncEpisode(cl **cluster) {
 		}
 	}
 }
+
+// ---------------------------------------------------------------------------------------------
+// Scripted multi-round attacks. On a correct implementation every forged step is refused (the
+// episode then just exercises the guards); on an implementation with a weakened guard the script
+// drives honest members into a concrete property violation that the monitors report.
+
+func (g *gen) startAll(inputs map[int64]int64) {
+	for _, h := range g.honest {
+		g.do(fmt.Sprintf("start %d", h))
+		if v, ok := inputs[h]; ok {
+			g.do(fmt.Sprintf("input %d %d", h, v))
+		}
+	}
+}
+
+// findWire returns the first honest broadcast matching type/source/round (ok=false if none yet).
+func (g *gen) findWire(typ, src, round int64) (wire, bool) {
+	for _, w := range g.hWires {
+		if w.C.Typ == typ && w.C.Src == src && w.C.Round == round {
+			return w, true
+		}
+	}
+	return wire{}, false
+}
+
+func (g *gen) deliverTo(p int64, typ, src, round int64) {
+	if w, ok := g.findWire(typ, src, round); ok {
+		g.do(fmt.Sprintf("recv %d ok %s", p, w.String()))
+	}
+}
+
+func (g *gen) send(p int64, w wire) { g.do(fmt.Sprintf("recv %d ok %s", p, w.String())) }
+
+// setupAttack: n = 4, member 3 Byzantine, leader(round) = (off+round)%4.
+func (g *gen) setupAttack(cl **cluster, off int64) {
+	g.cl = cl
+	if g.mon == nil {
+		g.mon = newMonitor(g.run)
+	}
+	g.n, g.q, g.f, g.off = 4, 3, 1, off
+	g.byz = map[int64]bool{3: true}
+	g.honest = []int64{0, 1, 2}
+	g.inbox = map[int64][]wire{}
+	g.hWires = nil
+	g.hCores = map[core]bool{}
+	g.maxRound = 1
+	g.do(fmt.Sprintf("cfg 4 100 %d", off))
+}
+
+func (g *gen) attackEpisode(cl **cluster, kind int) {
+	const A, X, B = 11, 22, 3
+	g.run.Count(fmt.Sprintf("attack:%d", kind))
+	switch kind {
+	case 0: // stale certificate: hide a higher prepared round behind an old PREPARE quorum (J2)
+		g.setupAttack(cl, 0) // leaders: r1=1, r2=2, r3=3(B)
+		g.startAll(map[int64]int64{0: A, 1: A, 2: X})
+		for _, p := range g.honest { // round 1: everybody prepares A
+			g.deliverTo(p, 1, 1, 1)
+		}
+		for _, s := range []int64{0, 1, 2} { // only member 0 sees the PREPARE quorum
+			g.deliverTo(0, 2, s, 1)
+		}
+		for _, p := range g.honest {
+			g.do(fmt.Sprintf("timeout %d", p))
+		}
+		// round 2: leader 2 sees only null ROUND-CHANGEs (1, 2 and the Byzantine one)
+		g.deliverTo(2, 4, 1, 2)
+		g.deliverTo(2, 4, 2, 2)
+		g.send(2, wire{C: core{Typ: 4, Src: B, Round: 2}})
+		for _, p := range []int64{1, 2} {
+			g.deliverTo(p, 1, 2, 2)
+		}
+		for _, p := range []int64{1, 2} {
+			g.deliverTo(p, 2, 1, 2)
+			g.deliverTo(p, 2, 2, 2)
+			g.send(p, wire{C: core{Typ: 2, Src: B, Round: 2, Value: X}})
+		}
+		g.deliverTo(2, 3, 1, 2)
+		g.deliverTo(2, 3, 2, 2)
+		g.send(2, wire{C: core{Typ: 3, Src: B, Round: 2, Value: X}}) // member 2 decides X
+		g.do("timeout 0")
+		g.do("timeout 1")
+		// round 3: Byzantine leader replays the round-1 PREPARE quorum for A, member 0's ROUND-CHANGE first
+		var just []core
+		for _, s := range []int64{0, 1} {
+			if w, ok := g.findWire(4, s, 3); ok {
+				just = append(just, w.C)
+			}
+		}
+		just = append(just, core{Typ: 4, Src: B, Round: 3, Pr: 1, Pv: A})
+		for _, s := range []int64{0, 1, 2} {
+			if w, ok := g.findWire(2, s, 1); ok {
+				just = append(just, w.C)
+			}
+		}
+		pp := wire{C: core{Typ: 1, Src: B, Round: 3, Value: A}, Just: just}
+		for _, p := range []int64{0, 1} {
+			g.send(p, pp)
+		}
+		for _, p := range []int64{0, 1} {
+			g.deliverTo(p, 2, 0, 3)
+			g.deliverTo(p, 2, 1, 3)
+			g.send(p, wire{C: core{Typ: 2, Src: B, Round: 3, Value: A}})
+		}
+		for _, p := range []int64{0, 1} {
+			g.deliverTo(p, 3, 0, 3)
+			g.deliverTo(p, 3, 1, 3)
+			g.send(p, wire{C: core{Typ: 3, Src: B, Round: 3, Value: A}})
+		}
+	case 1: // forged prepared-claim with a mixed PREPARE set
+		g.setupAttack(cl, 1) // leaders: r1=2, r2=3(B)
+		g.startAll(map[int64]int64{0: A, 1: A, 2: A})
+		for _, p := range g.honest {
+			g.deliverTo(p, 1, 2, 1)
+		}
+		for _, p := range g.honest {
+			for _, s := range []int64{0, 1, 2} {
+				g.deliverTo(p, 2, s, 1)
+			}
+		}
+		for _, s := range []int64{0, 1, 2} { // only member 0 sees the COMMIT quorum and decides A
+			g.deliverTo(0, 3, s, 1)
+		}
+		g.do("timeout 1")
+		g.do("timeout 2")
+		var just []core
+		just = append(just, core{Typ: 4, Src: B, Round: 2, Pr: 1, Pv: X})
+		for _, s := range []int64{1, 2} {
+			if w, ok := g.findWire(4, s, 2); ok {
+				just = append(just, w.C)
+			}
+		}
+		just = append(just, core{Typ: 2, Src: B, Round: 1, Value: X}) // forged PREPARE listed first
+		for _, s := range []int64{0, 1} {
+			if w, ok := g.findWire(2, s, 1); ok {
+				just = append(just, w.C)
+			}
+		}
+		pp := wire{C: core{Typ: 1, Src: B, Round: 2, Value: X}, Just: just}
+		for _, p := range []int64{1, 2} {
+			g.send(p, pp)
+		}
+		for _, p := range []int64{1, 2} {
+			g.deliverTo(p, 2, 1, 2)
+			g.deliverTo(p, 2, 2, 2)
+			g.send(p, wire{C: core{Typ: 2, Src: B, Round: 2, Value: X}})
+		}
+		for _, p := range []int64{1, 2} {
+			g.deliverTo(p, 3, 1, 2)
+			g.deliverTo(p, 3, 2, 2)
+			g.send(p, wire{C: core{Typ: 3, Src: B, Round: 2, Value: X}})
+		}
+	case 2: // empty value proposed in a later round on a null ROUND-CHANGE quorum
+		g.setupAttack(cl, 1)                    // leaders: r1=2, r2=3(B)
+		g.startAll(map[int64]int64{0: A, 1: A}) // the round-1 leader never obtains a proposal
+		for _, p := range g.honest {
+			g.do(fmt.Sprintf("timeout %d", p))
+		}
+		var just []core
+		for _, s := range []int64{0, 1, 2} {
+			if w, ok := g.findWire(4, s, 2); ok {
+				just = append(just, w.C)
+			}
+		}
+		pp := wire{C: core{Typ: 1, Src: B, Round: 2, Value: 0}, Just: just}
+		for _, p := range g.honest {
+			g.send(p, pp)
+		}
+		for _, p := range g.honest {
+			for _, s := range []int64{0, 1, 2} {
+				g.deliverTo(p, 2, s, 2)
+			}
+		}
+		for _, p := range g.honest {
+			for _, s := range []int64{0, 1, 2} {
+				g.deliverTo(p, 3, s, 2)
+			}
+		}
+	case 3: // DECIDED backed by copies of one member's COMMIT, or by fewer than a quorum
+		g.setupAttack(cl, 0)
+		g.startAll(map[int64]int64{0: A, 1: A, 2: A})
+		c := core{Typ: 3, Src: B, Round: 1, Value: 666}
+		g.send(0, wire{C: core{Typ: 5, Src: B, Round: 1, Value: 666}, Just: []core{c, c, c}})
+		g.send(1, wire{C: core{Typ: 5, Src: B, Round: 1, Value: 666}, Just: []core{c, c}})
+		// honest members then run a normal round and decide A
+		for _, p := range g.honest {
+			g.deliverTo(p, 1, 1, 1)
+		}
+		for _, p := range g.honest {
+			for _, s := range []int64{0, 1, 2} {
+				g.deliverTo(p, 2, s, 1)
+			}
+		}
+		for _, p := range g.honest {
+			for _, s := range []int64{0, 1, 2} {
+				g.deliverTo(p, 3, s, 1)
+			}
+		}
+	}
+}
